@@ -16,6 +16,7 @@
 #include <thread>
 #include <stdexcept>
 #include <signal.h>
+#include <time.h>
 #include <fcntl.h>
 #include <sys/wait.h>
 
@@ -24,6 +25,8 @@ using ksched::Scheduler;
 namespace {
 
 std::atomic<long> g_deadline_ms(0);   // 0 = no case running
+std::atomic<long> g_cpu0_ms(0);       // process CPU time when the deadline was armed
+long cpu_ms() { struct timespec ts; clock_gettime(CLOCK_PROCESS_CPUTIME_ID, &ts); return ts.tv_sec * 1000L + ts.tv_nsec / 1000000L; }
 std::string g_case;
 long now_ms() { return std::chrono::duration_cast<std::chrono::milliseconds>(std::chrono::steady_clock::now().time_since_epoch()).count(); }
 // Progress-based watchdog: after the (soft) deadline a hang is reported only when every other thread of the process has been
@@ -36,6 +39,9 @@ void watchdog() {
     long d = g_deadline_ms.load();
     if (!d) { idle = 0; continue; }
     long now = now_ms();
+    if (cpu_ms() - g_cpu0_ms.load() > 60000) {   // load-independent: a minute of CPU inside one case / one run = threads spin without finishing
+      std::cout << "HANG watchdog: livelock: 60 s of CPU time consumed without finishing" << std::endl; _exit(3);
+    }
     if (now <= d) { idle = 0; continue; }
     idle = procstate::process_idle(pid, self) ? idle + 1 : 0;
     if (idle >= 30 || now > d + 900000) {
@@ -53,7 +59,7 @@ void storm() {
   for (;;) { if (g_storm.load()) { kill(getpid(), SIGUSR1); usleep(150); } else usleep(2000); }
 }
 struct Storm { explicit Storm(bool on) { g_storm = on; } ~Storm() { g_storm = false; } };
-struct Deadline { explicit Deadline(long s) { g_deadline_ms = now_ms() + s * 1000; } ~Deadline() { g_deadline_ms = 0; } };
+struct Deadline { explicit Deadline(long s) { g_cpu0_ms = cpu_ms(); g_deadline_ms = now_ms() + s * 1000; } ~Deadline() { g_deadline_ms = 0; } };
 
 std::vector<std::string> split(const std::string &s, char c) {
   std::vector<std::string> r; std::string cur;
@@ -135,7 +141,7 @@ struct ExplicitPolicy : Scheduler::Policy {  // follow the list exactly; on a no
 void run_pcq(const PcqConfig &cfg, Scheduler::Policy &policy, RunResult &res) {
   int P = cfg.items.size(), C = cfg.counts.size();
   Scheduler &S = Scheduler::Get();
-  g_deadline_ms = now_ms() + 30000;   // per run (a DFS case performs many runs)
+  g_cpu0_ms = cpu_ms(); g_deadline_ms = now_ms() + 30000;   // per run (a DFS case performs many runs)
   S.Reset(P + C);
   res.got.assign(C, std::vector<int>());
   g_cur = &res;
@@ -533,6 +539,89 @@ std::string do_sig(std::istringstream &in) {
 }
 
 // ------------------------------------------------------------------------------------------------
+// Life cycle and configuration of a Chain: LIFE <entry_size> <block_count> <total_memory> <seed> <op>*
+//   T<n>  chain >> Source(n entries) >> Sink >> kRecycle        (all threads owned by the chain)
+//   U<n>  chain >> Source(n entries) >> Sink                    (no recycler: Wait / Start must close the loop)
+//   M<n>  { Stream s; chain >> s; write n entries; s.Poison(); } (driven by the calling thread only: the chain owns no thread)
+//   W / w Wait(true) / Wait(false);   S  Start() ("waits for the current chain to complete (if any) then starts again")
+// Result: "config-exception", or "bs=<block size>" followed, for every W / w / S, by
+//   <op>:run=<Running()>:made=<capacities of the PCQueues constructed since the last report>:r<k>=<entries>.<hash of the bytes>;...
+// for every round with a sink started so far (what its sink has received when the op returned).
+struct LifeRec { std::atomic<uint64_t> bytes; uint64_t hash; LifeRec() : bytes(0), hash(1469598103934665603ull) {} };
+inline unsigned char life_byte(uint64_t i, std::size_t j, int round) { return (unsigned char)((i * 31 + j * 7 + round * 13 + 1) & 0xff); }
+struct LifeSource {
+  uint64_t n; int round;
+  void Run(const util::stream::ChainPosition &pos) {
+    std::size_t es = pos.GetChain().EntrySize(), per = pos.GetChain().BlockSize() / es;
+    util::stream::Link l(pos);
+    for (uint64_t i = 0; i < n;) {
+      unsigned char *b = static_cast<unsigned char*>(l->Get()); std::size_t k = 0;
+      for (; k < per && i < n; ++k, ++i) for (std::size_t j = 0; j < es; ++j) b[k * es + j] = life_byte(i, j, round);
+      l->SetValidSize(k * es);
+      ++l;
+    }
+    l.Poison();
+  }
+};
+struct LifeSink {
+  LifeRec *rec;
+  void Run(const util::stream::ChainPosition &pos) {
+    for (util::stream::Link l(pos); l; ++l) {
+      const unsigned char *b = static_cast<const unsigned char*>(l->Get());
+      for (std::size_t i = 0; i < l->ValidSize(); ++i) { rec->hash ^= b[i]; rec->hash *= 1099511628211ull; }
+      rec->bytes += l->ValidSize();
+    }
+  }
+};
+std::string do_life(std::istringstream &in) {
+  std::size_t es, bc, total; uint64_t seed;
+  in >> es >> bc >> total >> seed;
+  std::vector<std::string> ops; std::string tok; while (in >> tok) ops.push_back(tok);
+  Scheduler::Get().Reset(0);
+  Scheduler::Get().SetJitter(seed);
+  Scheduler::Get().TakeInitLog();
+  std::ostringstream o;
+  std::vector<LifeRec*> recs;
+  try {
+    util::stream::Chain chain(util::stream::ChainConfig(es, bc, total));
+    o << "bs=" << chain.BlockSize();
+    if (chain.BlockSize() == 0) return o.str();      // nothing can be written into such a chain
+    int round = 0;
+    for (size_t a = 0; a < ops.size(); ++a) {
+      char k = ops[a][0]; uint64_t n = ops[a].size() > 1 ? strtoull(ops[a].c_str() + 1, NULL, 10) : 0;
+      if (k == 'T' || k == 'U') {
+        LifeSource src; src.n = n; src.round = round;
+        LifeSink sink; sink.rec = new LifeRec(); recs.push_back(sink.rec);
+        chain >> src >> sink;
+        if (k == 'T') chain >> util::stream::kRecycle;
+        ++round;
+      } else if (k == 'M') {
+        util::stream::Stream s; chain >> s;
+        for (uint64_t i = 0; i < n; ++i, ++s) { unsigned char *b = static_cast<unsigned char*>(s.Get()); for (std::size_t j = 0; j < es; ++j) b[j] = life_byte(i, j, round); }
+        s.Poison();
+        recs.push_back(NULL);
+        ++round;
+      } else {
+        if (k == 'W') chain.Wait(true); else if (k == 'w') chain.Wait(false); else if (k == 'S') chain.Start();
+        std::vector<std::size_t> il = Scheduler::Get().TakeInitLog();
+        o << ' ' << k << ":run=" << (chain.Running() ? 1 : 0) << ":made=";
+        for (size_t i = 0; i < il.size(); i += 2) o << (i ? "." : "") << il[i];
+        o << ':';
+        bool first = true;
+        for (size_t r = 0; r < recs.size(); ++r) if (recs[r]) {
+          o << (first ? "" : ";") << 'r' << r << '=' << recs[r]->bytes.load() / es << '.' << std::hex << recs[r]->hash << std::dec; first = false;
+        }
+      }
+    }
+  } catch (const util::stream::ChainConfigException &) {
+    Scheduler::Get().SetJitter(0);
+    return "config-exception";
+  }
+  Scheduler::Get().SetJitter(0);
+  return o.str();
+}
+
+// ------------------------------------------------------------------------------------------------
 struct PoolLog { std::mutex mu; std::vector<int> handled; };
 struct PoolHandler {
   typedef int Request;
@@ -626,6 +715,7 @@ int main() {
         else if (kind == "CHAINF") res = do_chain(in, false, true);
         else if (kind == "CHAINFS") res = do_chain(in, true, true);
         else if (kind == "SIG") res = do_sig(in);
+        else if (kind == "LIFE") res = do_life(in);
         else if (kind == "POOL") res = do_pool(in);
         else if (kind == "POOLF") res = do_poolf(in);
         else res = "bad-case";
